@@ -182,9 +182,9 @@ Ltac dvars := repeat match goal with
 (* call-by-value unfolding: the nested record updates must be evaluated before
    they are projected, otherwise the term grows exponentially *)
 Tactic Notation "rdc" := cbv [ctl_ok outside_ok deliver die upd set_busy set_stopped set_pst add_cb take
-  todo pc hp srv pst busy usecb watch stopped wire cblog rets got cbbase pst_eqb negb andb orb Bool.eqb is_range].
+  cfg cfg_block cfg_raw cfg_done todo pc hp srv pst busy usecb watch stopped wire cblog rets got cbbase pst_eqb negb andb orb Bool.eqb is_range].
 Tactic Notation "rdc" "in" hyp(H) := cbv [ctl_ok outside_ok deliver die upd set_busy set_stopped set_pst add_cb take
-  todo pc hp srv pst busy usecb watch stopped wire cblog rets got cbbase pst_eqb negb andb orb Bool.eqb is_range] in H.
+  cfg cfg_block cfg_raw cfg_done todo pc hp srv pst busy usecb watch stopped wire cblog rets got cbbase pst_eqb negb andb orb Bool.eqb is_range] in H.
 Ltac fin := dvars; rdc;
   repeat (match goal with |- context[if ?b then _ else _] => is_var b; destruct b end; rdc);
   try reflexivity.
@@ -192,7 +192,7 @@ Ltac fin := dvars; rdc;
 Lemma ctl_step fx s l s' : ctl_ok s = true -> step fx s l = Some s' -> ctl_ok s' = true.
 Proof.
   intros HI Hs.
-  destruct s as [todo0 pc0 hp0 srv0 pst0 busy0 usecb0 watch0 stopped0 wire0 cblog0 rets0 got0 cbbase0].
+  destruct s as [[cb0 cr0 cd0] todo0 pc0 hp0 srv0 pst0 busy0 usecb0 watch0 stopped0 wire0 cblog0 rets0 got0 cbbase0].
   destruct l; cbn in Hs; crush_step Hs.
   all: subst; rdc in HI.
   all: split_and.
@@ -201,7 +201,7 @@ Proof.
   all: try (cbn in *; congruence).
 Qed.
 
-Lemma ctl_init prog script : ctl_ok (init prog script) = true.
+Lemma ctl_init c prog script : ctl_ok (init c prog script) = true.
 Proof. reflexivity. Qed.
 
 Lemma run_inv {P : st -> Prop} fx :
@@ -229,7 +229,7 @@ Ltac try_l l := solve [exists l; cbn; rewrite ?call_eqb_refl, ?result_eqb_refl, 
 Lemma progress s : ctl_ok s = true -> pending s = true -> exists l s', step true s l = Some s'.
 Proof.
   intros HI HP.
-  destruct s as [todo0 pc0 hp0 srv0 pst0 busy0 usecb0 watch0 stopped0 wire0 cblog0 rets0 got0 cbbase0].
+  destruct s as [[cb0 cr0 cd0] todo0 pc0 hp0 srv0 pst0 busy0 usecb0 watch0 stopped0 wire0 cblog0 rets0 got0 cbbase0].
   unfold pending in HP; cbn in HP.
   destruct pc0 as [|c|c|c|p|p b e|c r]; [destruct todo0 as [|c t]; [discriminate|]; try_l (LCall c)|..];
   destruct hp0; rdc in HI; split_and; try discriminate; bools; try discriminate;
@@ -251,13 +251,13 @@ Definition mu (s : st) : nat :=
   10 * length (todo s) + wc (pc s) + 3 * length (srv s) + wh (hp s)
   + (if watch s then 1 else 0) + (if stopped s then 0 else 1).
 
-Tactic Notation "rdm" := cbv [mu wc wh deliver die upd set_busy set_stopped set_pst add_cb take
-  todo pc hp srv pst busy usecb watch stopped wire cblog rets got cbbase is_range].
+Tactic Notation "rdm" := cbv [orb mu wc wh deliver die upd set_busy set_stopped set_pst add_cb take
+  cfg cfg_block cfg_raw cfg_done todo pc hp srv pst busy usecb watch stopped wire cblog rets got cbbase is_range].
 
 Lemma mu_step fx s l s' : step fx s l = Some s' -> mu s' < mu s.
 Proof.
   intros Hs.
-  destruct s as [todo0 pc0 hp0 srv0 pst0 busy0 usecb0 watch0 stopped0 wire0 cblog0 rets0 got0 cbbase0].
+  destruct s as [[cb0 cr0 cd0] todo0 pc0 hp0 srv0 pst0 busy0 usecb0 watch0 stopped0 wire0 cblog0 rets0 got0 cbbase0].
   destruct l; cbn in Hs; crush_step Hs; subst; dvars; rdm;
     repeat (match goal with |- context[if ?b then _ else _] => is_var b; destruct b end; rdm);
     cbn [length]; try lia; try discriminate.
@@ -303,10 +303,10 @@ Definition RInv (s : st) : Prop :=
   Forall ret_ok (rets s)
   /\ match pc s with CRet (GetRange _ _) r => r = ROk \/ r = RErr ENotFound \/ r = RErr EShutdown | _ => True end.
 
-Tactic Notation "rdg" := cbv [GInv RInv deliver die upd set_busy set_stopped set_pst add_cb take
-  todo pc hp srv pst busy usecb watch stopped wire cblog rets got cbbase is_range].
-Tactic Notation "rdg" "in" hyp(H) := cbv [GInv RInv deliver die upd set_busy set_stopped set_pst add_cb take
-  todo pc hp srv pst busy usecb watch stopped wire cblog rets got cbbase is_range] in H.
+Tactic Notation "rdg" := cbv [orb GInv RInv deliver die upd set_busy set_stopped set_pst add_cb take
+  cfg cfg_block cfg_raw cfg_done todo pc hp srv pst busy usecb watch stopped wire cblog rets got cbbase is_range].
+Tactic Notation "rdg" "in" hyp(H) := cbv [orb GInv RInv deliver die upd set_busy set_stopped set_pst add_cb take
+  cfg cfg_block cfg_raw cfg_done todo pc hp srv pst busy usecb watch stopped wire cblog rets got cbbase is_range] in H.
 
 Lemma is_nil_app {A} (l : list A) x : is_nil (l ++ [x]) = false.
 Proof. destruct l; reflexivity. Qed.
@@ -314,7 +314,7 @@ Proof. destruct l; reflexivity. Qed.
 Lemma ginv_step s l s' : ctl_ok s = true -> GInv s -> step true s l = Some s' -> GInv s'.
 Proof.
   intros HC HI Hs.
-  destruct s as [todo0 pc0 hp0 srv0 pst0 busy0 usecb0 watch0 stopped0 wire0 cblog0 rets0 got0 cbbase0].
+  destruct s as [[cb0 cr0 cd0] todo0 pc0 hp0 srv0 pst0 busy0 usecb0 watch0 stopped0 wire0 cblog0 rets0 got0 cbbase0].
   destruct l; cbn in Hs; crush_step Hs; subst; rdc in HC; split_and; rdg in HI; dvars; rdg;
     repeat (match goal with |- context[if ?b then _ else _] => is_var b; destruct b end; rdg);
     try exact I; try discriminate; try (subst; reflexivity); try (left; reflexivity); try assumption.
@@ -334,7 +334,7 @@ Qed.
 Lemma rinv_step s l s' : GInv s -> RInv s -> step true s l = Some s' -> RInv s'.
 Proof.
   intros HG [HR HP] Hs.
-  destruct s as [todo0 pc0 hp0 srv0 pst0 busy0 usecb0 watch0 stopped0 wire0 cblog0 rets0 got0 cbbase0].
+  destruct s as [[cb0 cr0 cd0] todo0 pc0 hp0 srv0 pst0 busy0 usecb0 watch0 stopped0 wire0 cblog0 rets0 got0 cbbase0].
   destruct l; cbn in Hs; crush_step Hs; subst; cbn in HR, HP; rdg in HG; dvars; rdg;
     repeat (match goal with |- context[if ?b then _ else _] => is_var b; destruct b end; rdg);
     try (split; [assumption|]; try exact I; auto; fail).
@@ -345,25 +345,31 @@ Proof.
 Qed.
 
 (* callbacks: the log is the image of the accepted messages, in order *)
-Definition cbs_of (g : list smsg) : list cbev :=
-  flat_map (fun m => match m with Block (Some b) => [CbBlock b] | BatchDone => [CbDone] | _ => [] end) g.
+Definition cb_of (c : config) (m : smsg) : list cbev :=
+  match m with
+  | Block (Some b) => if cfg_block c || cfg_raw c then [CbBlock b] else []
+  | Block None => if cfg_block c then [] else if cfg_raw c then [CbBlock rawnone] else []
+  | BatchDone => if cfg_done c then [CbDone] else []
+  | _ => []
+  end.
+Definition cbs_of (c : config) (g : list smsg) : list cbev := flat_map (cb_of c) g.
 Definition pendingcb (h : hpc) : list cbev :=
   match h with HCbBlock b => [CbBlock b] | HCbDone => [CbDone] | _ => [] end.
 Definition KInv (s : st) : Prop :=
-  cblog s ++ pendingcb (hp s) = cbbase s ++ (if usecb s then cbs_of (got s) else []).
+  cblog s ++ pendingcb (hp s) = cbbase s ++ (if usecb s then cbs_of (cfg s) (got s) else []).
 
-Lemma cbs_of_app a b : cbs_of (a ++ b) = cbs_of a ++ cbs_of b.
+Lemma cbs_of_app c a b : cbs_of c (a ++ b) = cbs_of c a ++ cbs_of c b.
 Proof. unfold cbs_of. apply flat_map_app. Qed.
 
-Tactic Notation "rdk" := cbv [KInv pendingcb deliver die upd set_busy set_stopped set_pst add_cb take
-  todo pc hp srv pst busy usecb watch stopped wire cblog rets got cbbase is_range].
-Tactic Notation "rdk" "in" hyp(H) := cbv [KInv pendingcb deliver die upd set_busy set_stopped set_pst add_cb take
-  todo pc hp srv pst busy usecb watch stopped wire cblog rets got cbbase is_range] in H.
+Tactic Notation "rdk" := cbv [orb KInv pendingcb deliver die upd set_busy set_stopped set_pst add_cb take
+  cfg cfg_block cfg_raw cfg_done todo pc hp srv pst busy usecb watch stopped wire cblog rets got cbbase is_range].
+Tactic Notation "rdk" "in" hyp(H) := cbv [orb KInv pendingcb deliver die upd set_busy set_stopped set_pst add_cb take
+  cfg cfg_block cfg_raw cfg_done todo pc hp srv pst busy usecb watch stopped wire cblog rets got cbbase is_range] in H.
 
 Lemma kinv_step fx s l s' : ctl_ok s = true -> KInv s -> step fx s l = Some s' -> KInv s'.
 Proof.
   intros HC HI Hs.
-  destruct s as [todo0 pc0 hp0 srv0 pst0 busy0 usecb0 watch0 stopped0 wire0 cblog0 rets0 got0 cbbase0].
+  destruct s as [[cb0 cr0 cd0] todo0 pc0 hp0 srv0 pst0 busy0 usecb0 watch0 stopped0 wire0 cblog0 rets0 got0 cbbase0].
   destruct l; cbn in Hs; crush_step Hs; subst; rdk in HI; dvars; rdk;
     repeat (match goal with |- context[if ?b then _ else _] => is_var b; destruct b end; rdk);
     rewrite ?cbs_of_app, ?app_nil_r in *; cbn [cbs_of flat_map app] in *; rewrite ?app_nil_r in *;
@@ -379,16 +385,16 @@ Definition ncalls (s : st) : nat :=
 Lemma ncalls_step fx s l s' : step fx s l = Some s' -> ncalls s' = ncalls s.
 Proof.
   intros Hs.
-  destruct s as [todo0 pc0 hp0 srv0 pst0 busy0 usecb0 watch0 stopped0 wire0 cblog0 rets0 got0 cbbase0].
+  destruct s as [[cb0 cr0 cd0] todo0 pc0 hp0 srv0 pst0 busy0 usecb0 watch0 stopped0 wire0 cblog0 rets0 got0 cbbase0].
   destruct l; cbn in Hs; crush_step Hs; subst; dvars;
-    cbv [ncalls deliver die upd set_busy set_stopped set_pst add_cb take todo pc hp srv pst busy usecb watch stopped wire cblog rets got cbbase is_range];
+    cbv [orb ncalls deliver die upd set_busy set_stopped set_pst add_cb take cfg cfg_block cfg_raw cfg_done todo pc hp srv pst busy usecb watch stopped wire cblog rets got cbbase is_range];
     repeat (match goal with |- context[if ?b then _ else _] => is_var b; destruct b end;
-            cbv [ncalls deliver die upd set_busy set_stopped set_pst add_cb take todo pc hp srv pst busy usecb watch stopped wire cblog rets got cbbase is_range]);
+            cbv [orb ncalls deliver die upd set_busy set_stopped set_pst add_cb take cfg cfg_block cfg_raw cfg_done todo pc hp srv pst busy usecb watch stopped wire cblog rets got cbbase is_range]);
     rewrite ?app_length; cbn [length]; try lia; try discriminate.
 Qed.
 
 Definition Inv (s : st) : Prop := ctl_ok s = true /\ GInv s /\ RInv s /\ KInv s.
-Lemma inv_init prog script : Inv (init prog script).
+Lemma inv_init c prog script : Inv (init c prog script).
 Proof. repeat split; cbn; auto. Qed.
 Lemma inv_step s l s' : Inv s -> step true s l = Some s' -> Inv s'.
 Proof.
